@@ -131,6 +131,21 @@ def _flag_values(fl, cfg, expr, at):
     return out or {"?"}
 
 
+def _under(fl, expr, at, depth=0):
+    """Definitions behind expr, following plain aliases (x = y)."""
+    p = path_of(expr)
+    if p is None:
+        return []
+    out = []
+    for d, suffix in fl.rd(p, at):
+        if d.kind == "assign" and not suffix and d.value is not None and path_of(d.value) and depth < 6 and not isinstance(d.value, ast.Attribute):
+            sub = _under(fl, d.value, d.at, depth + 1)
+            out += sub if sub else [(d, suffix)]
+        else:
+            out.append((d, suffix))
+    return out
+
+
 def _truth_table_ok(flag_def, else_expr):
     """for all assignments of the atoms <X>.status == 'ACC': not flag => else_expr != ACC."""
     atoms = []
@@ -242,8 +257,8 @@ def r91(ctx, moves):
             tied = False
             fp, sp = path_of(flag), path_of(status)
             if fp and sp and "?" in fv:
-                fdefs = fl.rd(fp, at)
-                sdefs = fl.rd(sp, at)
+                fdefs = _under(fl, flag, at)
+                sdefs = _under(fl, status, at)
                 ok_all = bool(fdefs) and bool(sdefs)
                 fstm = {}
                 for d, _ in fdefs:
@@ -261,8 +276,8 @@ def r91(ctx, moves):
                         # status must be redefined right after as "ACC" if flag else <notACC>
                         partner = None
                         for sd, _ in sdefs:
-                            if sd.kind == "assign" and isinstance(sd.value, ast.IfExp) and path_of(sd.value.test) == fp and isinstance(sd.value.body, ast.Constant) and sd.value.body.value == "ACC":
-                                if cfg.dominates(d.at, sd.at) and {x.id for x, _ in fl.rd(fp, sd.at)} == {d.id}:
+                            if sd.kind == "assign" and isinstance(sd.value, ast.IfExp) and path_of(sd.value.test) == d.path and isinstance(sd.value.body, ast.Constant) and sd.value.body.value == "ACC":
+                                if cfg.dominates(d.at, sd.at) and {x.id for x, _ in fl.rd(d.path, sd.at)} == {d.id}:
                                     partner = sd
                         if partner is None or not _truth_table_ok(d.value, partner.value.orelse):
                             ok_all = False
@@ -329,8 +344,13 @@ def r92(ctx):
                         if m.rel == TIS and f.name == "run_md":
                             ok = False
                             for e, tr, bn in cfg.guards(at):
-                                if tr and isinstance(e, ast.Compare) and isinstance(e.ops[0], ast.Eq) and isinstance(e.comparators[0], ast.Constant) and e.comparators[0].value == "ACC":
-                                    srcs = fl.rd(path_of(e.left) or "?", at)
+                                if tr and isinstance(e, ast.Compare) and isinstance(e.ops[0], ast.Eq):
+                                    lhs, rhs = e.left, e.comparators[0]
+                                    if isinstance(lhs, ast.Constant):
+                                        lhs, rhs = rhs, lhs
+                                    if not (isinstance(rhs, ast.Constant) and rhs.value == "ACC"):
+                                        continue
+                                    srcs = _under(fl, lhs, at)
                                     if any(d.kind == "unpack" and isinstance(d.value, ast.Call) and last_name(d.value) == "select_shoot" and d.index == (2,) for d, _ in srcs):
                                         ok = True
                             if ok:
@@ -600,4 +620,30 @@ def run(ctx):
     ctx.attempt(r95, ctx)
 
 
-VARIANTS = []
+VARIANTS = [
+    B("c09-true-with-ftx", TIS, '        if trial_path.length == ens_set["tis_set"]["maxlength"]:\n            trial_path.status = "FTX"  # exceeds "memory".\n        return False, trial_path, trial_path.status', '        if trial_path.length == ens_set["tis_set"]["maxlength"]:\n            trial_path.status = "FTX"  # exceeds "memory".\n        return True, trial_path, trial_path.status', "R-9.1", control=True),
+    B("c09-acc-before-later-rejection", TIS, '    trial_path.weight = 1.0\n\n    # Deal with the rejections for path properties.', '    trial_path.weight = 1.0\n    trial_path.status = "ACC"\n    # Deal with the rejections for path properties.', "R-9.1",
+      also=[(TIS, '        # No, we did not cross the middle interface:\n        trial_path.status = "NCR"\n        return False, trial_path, trial_path.status', '        # No, we did not cross the middle interface:\n        return False, trial_path, trial_path.status')]),
+    B("c09-false-with-acc-constant", TIS, '        return False, trial_path, "NSG"', '        return False, trial_path, "ACC"', "R-9.1"),
+    B("c09-swap-flag-computed-separately", TIS, "    return accept, [path0, path1], status", "    return path0.length > 2, [path0, path1], status", "R-9.1"),
+    B("c09-swap-status-not-tied", TIS, '        "ACC"\n        if accept\n        else (path0.status if path0.status != "ACC" else path1.status)', '        "ACC"\n        if accept\n        else path0.status', "R-9.1"),
+    B("c09-extender-acc-on-reject", TIS, '        trial_path.status = "FTX"  # exceeds "memory".\n        return False, trial_path, trial_path.status\n    trial_path.status = "ACC"\n    return True', '        trial_path.status = "ACC"  # exceeds "memory".\n        return False, trial_path, trial_path.status\n    trial_path.status = "ACC"\n    return True', "R-9.1"),
+    B("c09-replace-without-acc", TIS, '        if status == "ACC":\n            minus = True if ens_num < 0 else False', '        if status != "BTX":\n            minus = True if ens_num < 0 else False', "R-9.2", control=True),
+    B("c09-replace-in-select-shoot", TIS, "        new_paths = [new_path]\n", "        new_paths = [new_path]\n        pens[\"traj\"] = new_path\n", "R-9.2"),
+    B("c09-store-every-path", REPEX, '            if out_traj.path_number is None or md_items["status"] == "ACC":', "            if True:", "R-9.2"),
+    B("c09-modify-velocities-in-place", TIS, "    shpt_copy = shooting_point.copy()\n    logger.info(\"Shooting from order", "    shpt_copy = shooting_point\n    logger.info(\"Shooting from order", "R-9.3", control=True),
+    B("c09-swap-frame-not-copied", TIS, "    phase_point = path_old1.phasepoints[1].copy()", "    phase_point = path_old1.phasepoints[1]", "R-9.3"),
+    B("c09-extender-system-borrowed", TIS, "    sh_pt = trial_path.phasepoints[-1].copy()", "    sh_pt = trial_path.phasepoints[-1]", "R-9.3"),
+    B("c09-append-to-old-path", TIS, "    trial_path.generated = (\"sh\", shooting_point.order[0], idx, 0)\n", "    trial_path.generated = (\"sh\", shooting_point.order[0], idx, 0)\n    path.append(shooting_point)\n", "R-9.3"),
+    B("c09-failed-backward-added-to-old-path", TIS, "        path_back, trial_path, shpt_copy, ens_set, engine, start_cond\n    ):", "        path_back, path, shpt_copy, ens_set, engine, start_cond\n    ):", "R-9.3"),
+    B("c09-index-can-be-first", PATH, "idx = rgen.integers(1, self.length - 1)", "idx = rgen.integers(0, self.length - 1)", "R-9.4", control=True),
+    B("c09-index-can-be-last", PATH, "idx = rgen.integers(1, self.length - 1)", "idx = rgen.integers(1, self.length)", "R-9.4"),
+    B("c09-index-endpoint-closed", PATH, "idx = rgen.integers(1, self.length - 1)", "idx = rgen.integers(1, self.length - 1, endpoint=True)", "R-9.4"),
+    B("c09-wrong-frame-returned", PATH, "        return self.phasepoints[idx], idx", "        return self.phasepoints[idx - 1], idx", "R-9.4"),
+    K("c09-keep-index-keywords", PATH, "idx = rgen.integers(1, self.length - 1)", "idx = rgen.integers(low=1, high=self.length - 1)"),
+    K("c09-keep-index-closed-form", PATH, "idx = rgen.integers(1, self.length - 1)", "idx = rgen.integers(1, self.length - 2, endpoint=True)"),
+    K("c09-keep-status-local", TIS, '        trial_path.status = "NCR"\n        return False, trial_path, trial_path.status', '        trial_path.status = "NCR"\n        return False, trial_path, "NCR"'),
+    K("c09-keep-copy-inline", TIS, "    shpt_copy = shooting_point.copy()\n    success_forw, _ = engine.propagate(\n        path_forw, ens_set, shpt_copy, reverse=False\n    )", "    success_forw, _ = engine.propagate(\n        path_forw, ens_set, shooting_point.copy(), reverse=False\n    )"),
+    K("c09-keep-acc-guard-swapped", TIS, '        if status == "ACC":\n            minus = True if ens_num < 0 else False', '        if "ACC" == status:\n            minus = True if ens_num < 0 else False'),
+    K("c09-keep-swap-status-var", TIS, "    return accept, [path0, path1], status", "    final_status = status\n    return accept, [path0, path1], final_status"),
+]
